@@ -347,3 +347,62 @@ func HarnessEvictInterleaved() {
 func vKeysN(i int) CacheKey {
 	return CacheKey{Hex: "0000000" + string(rune('0'+i)) + "kkkk"}
 }
+
+// HarnessJanitorTick: the janitor's own loop (real goroutine, real ticker channel) does, on
+// every tick, BOTH halves of a cycle: the expired entries are removed and the size limit is
+// enforced (down to 80 %), and it keeps doing so on later ticks, after an interval change, and
+// stops doing so once the cache is stopped.
+func HarnessJanitorTick() {
+	resetMetrics()
+	vSetSysMem(1 << 40)
+	limit := int64(1000)
+	cfg := newCfg(limit)
+	c := NewMemoryCache[vmeta](cfg, 100, limit, time.Hour, 2, context.Background())
+	vRunPendingAt(0) // the loop starts and waits
+	vAssert(vParkedCount() == 1, "c13.janitor-loop-not-waiting")
+	vClockFreeze(true)
+	now := time.Now()
+	round := func(tag string) {
+		// 2 expired entries and 6 live ones of 200 bytes: 1200 live bytes > limit
+		for i := 0; i < 2; i++ {
+			putMeta(c, vKeysN(i), 50, now.Add(-time.Second), now.Add(-time.Hour))
+		}
+		for i := 2; i < 8; i++ {
+			if _, ok := c.entries[vKeysN(i)]; !ok {
+				putMeta(c, vKeysN(i), 200, now.Add(time.Hour), now.Add(-time.Duration(10-i)*time.Minute))
+			}
+		}
+		vTick()
+		vResumeParked()
+		vAssert(vParkedCount() == 1, "c13.janitor-loop-died")
+		for i := 0; i < 2; i++ {
+			_, still := c.entries[vKeysN(i)]
+			vAssert(!still, "c13.tick."+tag+".expired-entry-kept")
+		}
+		vAssert(c.byteSize.Get() <= limit*8/10, "c13.tick."+tag+".size-limit-not-enforced")
+		vAssert(c.byteSize.Get() > limit*8/10-200, "c13.evict.evicted-more-than-needed")
+		_, newest := c.entries[vKeysN(7)]
+		vAssert(newest, "c13.evict.kept-a-higher-priority-entry")
+	}
+	round("first")
+	vReach("first-tick")
+	if symChoice(2) == 1 {
+		cfg.Cache.CleanupInterval.Stage(duration.Duration(5 * time.Minute))
+		cfg.Cache.CleanupInterval.CommitStaged()
+		vRunPending()
+		vAssert(c.janitor.interval == 5*time.Minute && vTickerInterval() == 5*time.Minute, "c13.interval-change-not-followed")
+		vReach("interval-changed")
+	}
+	round("later")
+	vReach("later-tick")
+	// stopped: a tick that is still delivered does nothing any more
+	c.Destroy()
+	vRunPending()
+	vAssert(vParkedCount() == 0, "c14.janitor-loop-survives-stop")
+	putMeta(c, vKeysN(0), 50, now.Add(-time.Second), now.Add(-time.Hour))
+	vTick()
+	vRunPending()
+	_, still := c.entries[vKeysN(0)]
+	vAssert(still, "c13.stopped-janitor-still-cleans")
+	vReach("stopped")
+}
